@@ -220,6 +220,26 @@ class UnitGen:
                             sha256=hashlib.sha256(src_body.encode()).hexdigest(),
                             dropped_attributes=dropped, src_text=src_body, rewrites=irws))
 
+    @staticmethod
+    def masked_sub(pattern, fn, text):
+        """re.sub where the pattern is matched on the text with comments and string contents blanked,
+        and the match object handed to `fn` carries the ORIGINAL text of the groups."""
+        out = []
+        pos = 0
+        m_text = mask(text)
+        for m in re.finditer(pattern, m_text):
+            orig = re.match(pattern, text[m.start():m.end()], re.S)
+            class M:  # minimal match facade over the original text
+                def __init__(s2, a, b): s2.a, s2.b = a, b
+                def group(s2, k=0):
+                    if k == 0: return text[s2.a:s2.b]
+                    return text[m.start(k):m.end(k)]
+            out.append(text[pos:m.start()])
+            out.append(fn(M(m.start(), m.end())))
+            pos = m.end()
+        out.append(text[pos:])
+        return ''.join(out)
+
     def auto_rewrites(self, text):
         rws = []
 
@@ -236,6 +256,43 @@ class UnitGen:
             rws.append(('RW2', m.group(0), '|_e|'))
             return '|_e|'
         text = re.sub(r'\|_\|', rw2, text)
+
+        # RW3: <place>.drain(<range>).collect()  /  <place>.drain(<range>);   (Vec::drain is outside Verus)
+        # RW7: <place>.extend(<expr>);
+        place = r'(?<![\w.])(?P<place>(?:self|[A-Za-z_]\w*)(?:\s*\.\s*[A-Za-z_]\w*)*)'
+
+        def norm_place(p):
+            p = re.sub(r'\s+', '', p)
+            return p if p.startswith('self.') else p  # locals that are &mut Vec are passed as is
+
+        def rw3_collect(m):
+            pl = norm_place(m.group('place'))
+            rng = m.group('range').strip()
+            amp = '&mut ' if pl.startswith('self.') else ''
+            if rng == '..':
+                new = 'vdrain_all_collect(%s%s)' % (amp, pl)
+            else:
+                new = 'vdrain_to_collect(%s%s, %s)' % (amp, pl, rng)
+            rws.append(('RW3', m.group(0), new))
+            return new
+        text = self.masked_sub(place + r'\s*\.\s*drain\((?P<range>[^;{}]*?)\)\s*\.\s*collect\(\)', rw3_collect, text)
+
+        def rw3_drop(m):
+            pl = norm_place(m.group('place'))
+            rng = m.group('range').strip()
+            amp = '&mut ' if pl.startswith('self.') else ''
+            new = 'vdrain_to_drop(%s%s, %s);' % (amp, pl, rng)
+            rws.append(('RW3', m.group(0), new))
+            return new
+        text = self.masked_sub(place + r'\s*\.\s*drain\((?P<range>\.\.[^;{}]+?)\);', rw3_drop, text)
+
+        def rw7(m):
+            pl = norm_place(m.group('place'))
+            amp = '&mut ' if pl.startswith('self.') else ''
+            new = 'vextend(%s%s, %s);' % (amp, pl, m.group('arg'))
+            rws.append(('RW7', m.group(0), new))
+            return new
+        text = self.masked_sub(place + r'\s*\.\s*extend\((?P<arg>[A-Za-z_]\w*)\);', rw7, text)
         return text, rws
 
     def gen_fn(self, g, fd):
@@ -260,7 +317,10 @@ class UnitGen:
                     rid, pat, rep = sec.args
                     m = re.search(pat, text, re.S)
                     if not m:
-                        raise ExtractError('%s: rewrite %s pattern not found in %s' % (fd.origin, rid, fd.path))
+                        # the code changed shape here; go on without the rewrite (Verus decides whether
+                        # the new text is within its subset)
+                        g.lost_anchors.append('%s.rewrite.%s' % (fid, rid))
+                        continue
                     new = m.expand(rep)
                     rws.append((rid, m.group(0), new))
                     text = text[:m.start()] + new + text[m.end():]
